@@ -38,11 +38,39 @@ def set_rules():
             "twin": {"translated": done, "skipped": skipped}}
 
 
+def set_tables():
+    body = _read("kani/tables.rs")
+    for kind, table, dirs in (("rook", "ROOK_MAGICS", "ROOK_DIRS"), ("bishop", "BISHOP_MAGICS", "BISHOP_DIRS")):
+        for sq in range(64):
+            body += f"""
+#[kani::proof]
+#[kani::unwind(9)]
+fn {kind}_sq_{sq:02}() {{
+    let occ: u64 = kani::any();
+    kani::cover!(occ != 0);
+    assert_eq!({table}.get_attacks({sq}, occ), ray_ref({sq}, occ, &{dirs}));
+}}
+"""
+    return {"package": "inkayaku_board", "append_to": "board/src/board.rs", "module": body}
+
+
 SETS = {
     "rules": set_rules,
+    "tables": set_tables,
 }
 
+def _table_harnesses():
+    h = {}
+    for kind in ("rook", "bishop"):
+        for sq in range(64):
+            h[f"{kind}_sq_{sq:02}"] = {"complete": True, "note": f"{kind} magic lookup on square {sq} for all 2^64 occupancies vs ray oracle; ray loops bounded by board width (unwind 9, unwinding assertions on); get_unchecked dereferences checked by CBMC"}
+    for t in ("king_table", "knight_table", "white_pawn_table", "black_pawn_table"):
+        h[t] = {"complete": True, "note": "all 64 squares (symbolic) vs step oracle clipped at the board edge"}
+    return h
+
+
 HARNESSES = {
+    "tables": _table_harnesses(),
     # set -> harness -> meta
     "rules": {
         "wf_preserved": {"complete": True, "note": "full symbolic position (12 bitboards, rights, side, e.p., clocks) and packed move; loop-free"},
@@ -51,11 +79,31 @@ HARNESSES = {
 
 
 def parse_kani_output(out):
-    """split cargo kani output into per-harness results"""
+    """split cargo kani output (single- or multi-threaded) into per-harness results"""
+    cur = {}        # thread id -> harness name
+    blocks = {}     # harness -> text
+    active = None   # harness whose block we are in
+    for ln in out.splitlines():
+        m = re.match(r"^(?:Thread (\d+): )?Checking harness (\S+?)\.\.\.", ln)
+        if m:
+            name = m.group(2).split("::")[-1]
+            cur[m.group(1)] = name
+            blocks.setdefault(name, "")
+            active = name if m.group(1) is None else None
+            continue
+        m = re.match(r"^Thread (\d+):\s*(.*)$", ln)
+        if m:
+            active = cur.get(m.group(1))
+            if active is not None:
+                blocks[active] += m.group(2) + "\n"
+            continue
+        if ln.startswith("Manual Harness Summary") or ln.startswith("Complete - "):
+            active = None
+            continue
+        if active is not None:
+            blocks[active] += ln + "\n"
     res = {}
-    blocks = re.split(r"(?m)^Checking harness ", out)
-    for b in blocks[1:]:
-        name = b.split("...")[0].strip().split("::")[-1]
+    for name, b in blocks.items():
         status = "UNKNOWN"
         m = re.search(r"VERIFICATION:-\s*(\w+)", b)
         if m:
@@ -110,7 +158,89 @@ def run_set(set_name, harness_names=None, jobs=None, timeout=3600, playback=Fals
     res = parse_kani_output(out)
     compile_error = ("error: could not compile" in out) or ("error[E" in out) or (rc != 0 and not res)
     return {"set": set_name, "cmd": " ".join(cmd), "rc": rc, "results": res, "wall_s": round(time.time() - t0, 1),
-            "compile_error": compile_error, "output_tail": out[-6000:], "twin": cfg.get("twin"), "requested": names}
+            "compile_error": compile_error, "output_tail": out[-6000:], "full_output": out if playback else "",
+            "twin": cfg.get("twin"), "requested": names}
+
+
+REPLAY_SHIM = r"""
+mod kani {
+    use std::cell::RefCell;
+    thread_local! { pub static VALS: RefCell<Vec<Vec<u8>>> = RefCell::new(Vec::new()); }
+    pub trait Replay { fn from_le(b: &[u8]) -> Self; }
+    macro_rules! int_replay { ($($t:ty),*) => { $(impl Replay for $t { fn from_le(b: &[u8]) -> Self { let mut a = [0u8; std::mem::size_of::<$t>()]; a.copy_from_slice(&b[..std::mem::size_of::<$t>()]); <$t>::from_le_bytes(a) } })* } }
+    int_replay!(u8, u16, u32, u64, u128, usize, i8, i16, i32, i64, isize);
+    impl Replay for bool { fn from_le(b: &[u8]) -> Self { b[0] != 0 } }
+    impl Replay for char { fn from_le(b: &[u8]) -> Self { char::from_u32(u32::from_le(b)).expect("REPLAY: invalid char") } }
+    pub fn next() -> Vec<u8> { VALS.with(|v| { let mut v = v.borrow_mut(); assert!(!v.is_empty(), "REPLAY: counterexample has too few values"); v.remove(0) }) }
+    pub fn any<T: Replay>() -> T { T::from_le(&next()) }
+    pub fn any_array<T: Replay, const N: usize>() -> [T; N] { std::array::from_fn(|_| any::<T>()) }
+    pub fn assume(c: bool) { assert!(c, "REPLAY: counterexample violates an assumption"); }
+}
+"""
+
+
+def to_replay_module(module_text, harness, vals):
+    """the harness module, compiled as an ordinary #[cfg(test)] module with kani::any() fed from the counterexample"""
+    out = []
+    for ln in module_text.split("\n"):
+        st = ln.strip()
+        if re.match(r"#\[kani::[^\]]*\]$", st):
+            continue
+        if st.startswith("kani::cover!(") and st.endswith(");"):
+            continue
+        out.append(ln)
+    vec = ", ".join("vec![" + ", ".join(str(b) for b in v) + "]" for v in vals)
+    test = f"""
+#[test]
+fn verif_replay_counterexample() {{
+    kani::VALS.with(|v| *v.borrow_mut() = vec![{vec}]);
+    {harness}();
+}}
+"""
+    return "\n#[cfg(test)]\n#[allow(unused_imports, dead_code, unused_variables, unused_macros, clippy::all)]\nmod verif_kani_replay {\nuse super::*;\n" + REPLAY_SHIM + "\n".join(out) + test + "}\n"
+
+
+def parse_playback(out, harness):
+    """concrete values of the test generated for a failed assertion (not for a cover) of `harness`"""
+    tests = re.findall(r"```\n(.*?)```", out, flags=re.S)
+    best = None
+    for t in tests:
+        if f"kani_concrete_playback_{harness}_" not in t:
+            continue
+        vals = [[int(x) for x in v.split(",") if x.strip()] for v in re.findall(r"vec!\[([0-9,\s]*)\],", t)]
+        comments = re.findall(r"//\s*(.+)", t)
+        is_cover = "Check for `cover`" in t
+        if best is None or (best[2] and not is_cover):
+            best = (vals, comments, is_cover)
+    if best is None or best[2]:
+        return None
+    return {"byte_vectors": best[0], "rendered": [c for c in best[1] if not c.startswith("/")][:40]}
+
+
+def playback_and_replay(set_name, harness, timeout=1500):
+    """re-run one failed harness with concrete playback, then run the same harness natively on the counterexample"""
+    info = {"counterexample": None, "replay": None}
+    r = run_set(set_name, [harness], jobs=1, timeout=timeout, playback=True)
+    cx = parse_playback(r["output_tail"] if len(r.get("full_output", "")) == 0 else r["full_output"], harness)
+    if cx is None:
+        info["note"] = "Kani produced no concrete values (timeout or unsupported)"
+        return info
+    info["counterexample"] = cx
+    cfg = SETS[set_name]()
+    mod = to_replay_module(cfg["module"], harness, cx["byte_vectors"])
+    crate_dir = cfg["append_to"].split("/")[0]
+    with scratch.Scratch("kreplay") as sc:
+        sc.write(cfg["append_to"], mod, append=True)
+        cmd = ["cargo", "test", "--offline", "-p", cfg["package"], "--lib", "--", "verif_replay_counterexample", "--nocapture"]
+        try:
+            p = subprocess.run(cmd, cwd=sc.repo, env=scratch.cargo_env("target-replay"), capture_output=True, text=True, timeout=1500)
+            out = p.stdout[-3000:] + "\n--- stderr (tail) ---\n" + p.stderr[-3000:]
+            reproduced = p.returncode != 0 and "verif_replay_counterexample" in (p.stdout + p.stderr) and "panicked" in (p.stdout + p.stderr) \
+                and "REPLAY:" not in (p.stdout + p.stderr) and "error[" not in p.stderr and "could not compile" not in p.stderr
+            info["replay"] = {"cmd": " ".join(cmd), "exit": p.returncode, "output": out, "reproduced": reproduced}
+        except subprocess.TimeoutExpired:
+            info["replay"] = {"cmd": " ".join(cmd), "exit": None, "output": "timeout", "reproduced": False}
+    return info
 
 
 def run_for_property(prop, cfg, tier, seed):
@@ -149,6 +279,14 @@ def run_for_property(prop, cfg, tier, seed):
                 else:
                     v = {"obligation": oid, "unit": part["set"], "function": h, "message": "; ".join(hr["failed_checks"])[:500],
                          "origin": f"kani/{part['set']}.rs", "verifier_output": hr["tail"], "backend": "kani", "seed": seed}
+                    if not os.environ.get("VERIF_NO_PLAYBACK") and len([x for x in info["violations"] if x.get("counterexample")]) < 2:
+                        try:
+                            pb = playback_and_replay(part["set"], h)
+                            v["counterexample"] = pb.get("counterexample")
+                            v["counterexample_replay"] = pb.get("replay")
+                            v["counterexample_reproduced"] = bool(pb.get("replay") and pb["replay"].get("reproduced"))
+                        except Exception as e:  # reporting only
+                            v["counterexample_error"] = str(e)
                     info["violations"].append(v)
             else:
                 info["undecided"].append(f"{oid}: {hr['status']} ({'timeout' if r['rc'] == 124 else 'no verdict'})")
